@@ -260,6 +260,7 @@ def run(tier, seed):
         if u > 2:
             ck.violation({"fn": name, "clause": "exact_point"}, "%s(%r) = %r, expected %r (%.3g ulp)" % (name, z, got, exp, u), {})
     cexp_lattice(ck, C, note)
+    clog_unit_circle(ck, C, rows, note)
     symmetry_lattice(ck, C, rng)
     ck.cov["traces_validated_against_impl"] = len(rows)
     ck.notes["worst_ulp_by_kind"] = {k: (round(v, 2) if v < 1e290 else "non-finite") for k, v in worst.items()}
@@ -322,6 +323,39 @@ def symmetry_lattice(ck, C, rng):
         if got != 0j:
             ck.violation({"fn": "cipow", "clause": "algebraic_identity"}, "cipow(0, %d) = %r" % (k, got), {})
     ck.notes["symmetry_lattice_points"] = n
+
+
+def clog_unit_circle(ck, C, rows, note):
+    """Re clog(z) = log|z| loses everything to cancellation near |z| = 1 unless log1p of the exactly formed x^2 + y^2 - 1 is used.
+    Directions come from the exported Pythagorean triples (x/h, y/h as doubles), radii 1 +- d for d from 1e-2 down to 2^-50; the
+    reference is log1p of the EXACT rational x^2 + y^2 - 1 of the doubles (correctly rounded to a double first), halved."""
+    from fractions import Fraction
+    triples = [(c["x"], c["y"], c["h"]) for c in rows if c["kind"] == "hypot_exact" and c["h"] != 0][:12]
+    # directions on and next to the axes (the smaller component contributes little to the modulus): integer "triples" with h = 1
+    triples += [(1, 0, 1), (0, 1, 1), (1, 2.0 ** -20, 1), (2.0 ** -27, 1, 1), (1, 2.0 ** -12, 1)]
+    ds = [1e-2, 1e-3, 1e-5, 1e-8, 2.0 ** -35, 2.0 ** -44, 2.0 ** -50]
+    for (x, y, h) in triples:
+        for sx, sy in ((1, 1), (-1, 1), (1, -1), (-1, -1)):
+            for d in ds:
+                for sg in (1.0, -1.0):
+                    zr, zi = sx * (x / h) * (1.0 + sg * d), sy * (y / h) * (1.0 + sg * d)
+                    t = Fraction(zr) ** 2 + Fraction(zi) ** 2 - 1
+                    if t == 0:
+                        continue
+                    ref = 0.5 * math.log1p(float(t))
+                    got = C.clog(complex(zr, zi))
+                    u = abs(got.real - ref) / (abs(ref) * ULP) if ref != 0 else abs(got.real) / 5e-324
+                    note("clog_near_unit_modulus", u)
+                    ck.case(("clog_unit", x, y, sx, sy, d, sg), True)
+                    region = "near_axis" if min(abs(zr), abs(zi)) <= 2.0 ** -10 * max(abs(zr), abs(zi)) else "off_axis"
+                    note("clog_near_unit_modulus_" + region, u)
+                    if not u <= 8:
+                        ck.violation({"fn": "clog", "clause": "near_unit_modulus", "region": region},
+                                     "clog(%r).real = %r, log1p of the exact x^2 + y^2 - 1 (= %.6g) halved = %r (%.3g ulp): cancellation near |z| = 1" % (
+                                         complex(zr, zi), got.real, float(t), ref, u), {"z": [zr, zi]})
+                    ea = math.atan2(zi, zr)
+                    if abs(got.imag - ea) > 4 * ULP * abs(ea):
+                        ck.violation({"fn": "clog", "clause": "argument"}, "clog(%r).imag = %r, atan2 = %r" % (complex(zr, zi), got.imag, ea), {"z": [zr, zi]})
 
 
 def cexp_lattice(ck, C, note):
